@@ -64,6 +64,14 @@ class ShardResult:
 def main():
     prop, sf, of = sys.argv[1:4]
     warnings.simplefilter("ignore")
+    # if this shard ever stalls, leave the stacks of all its threads in the shard log shortly before the runner's watchdog fires
+    try:
+        import faulthandler
+        limit = int(os.environ.get("TICCMON_SHARD_TIMEOUT", "0"))
+        if limit > 40:
+            faulthandler.dump_traceback_later(limit - 20, exit=False)
+    except Exception:
+        pass
     with open(sf) as f:
         spec = ser.loads(f.read())
     mod = importlib.import_module("ticcmon.checks.%s" % prop.lower())
